@@ -1,6 +1,9 @@
 import EudoxiaModel.Model.Sim
 import EudoxiaModel.Model.Sweep
 import EudoxiaModel.Proofs.Store
+import EudoxiaModel.Proofs.Complete
+import EudoxiaModel.Proofs.PrioMulti
+import EudoxiaModel.Proofs.OnePipeRounds
 /-! # C06 — completion, latency and returned statistics match an independent recount -/
 namespace Eudoxia.C06
 open Eudoxia.Sim Extracted
@@ -146,5 +149,82 @@ theorem complete_stays_complete {s s' : Store} (h : Steps s s') (ops : List Nat)
   simp only [allCompleted, List.all_eq_true, beq_iff_eq] at hc ⊢
   intro o ho
   exact completed_final h o (hc o ho)
+
+/-! ### the tick in which the last operator completes is a swept tick -/
+
+/-- **an operator completes only inside a container, and the container that completes a pipeline's last operator reports success in that very tick.**  From a
+ready world whose containers each hold operators of one pipeline only (as every shipped scheduler builds them; `World.OnePipe`, handed on by the tick), with
+container numbers never re-used and every container's record straight: if after an executor tick — any pools, any admissible assignments and suspension
+requests, kills and write-outs included — all operators of a pipeline are COMPLETED and one of them was not before the tick, then the tick returns a successful
+result naming an operator of that pipeline.  So the tick has results, and the simulator's completion sweep, which looks only then, runs. -/
+theorem completion_comes_with_a_success_result_in_the_same_tick (w0 w1 : World) (asgs : List Asg) (sus : List (Nat × Nat)) (hr : WorldReady w0)
+    (hb : Built w0 asgs w1) (hseg : ∀ a ∈ asgs, ∀ r ∈ a.ops, w0.store.segsOf r ≠ []) (hpar : ∀ a ∈ asgs, ParentsOK w1.store a.ops)
+    (hsus : ∀ i, ((sus.filter (·.1 == i)).map (·.2)).Nodup) (hf : w0.FinS) (hc : w0.CidsOK) (hpid : w0.PidOK) (h1 : w0.OnePipe)
+    (ha1 : ∀ a ∈ asgs, InOne w0.pipes a.ops) {w2 : World} {res : List Res} (hx : w1.execTick sus asgs = .ok (w2, res)) :
+    w2.OnePipe ∧ (∀ r ∈ res, InOne w0.pipes r.ops) ∧ ∀ pid, (∀ o ∈ (w0.pipes.getD pid default).order, w2.store.stOf o = completed) →
+      (∃ o ∈ (w0.pipes.getD pid default).order, w1.store.stOf o ≠ completed) →
+      ∃ r ∈ res, r.ok = true ∧ ∃ o ∈ r.ops, o ∈ (w0.pipes.getD pid default).order :=
+  execTick_completion w0 w1 asgs sus hr hb hseg hpar hsus hf hc hpid h1 ha1 hx
+
+/-- **counted in the tick in which its last operator completes.**  Under the same hypotheses: an outstanding pipeline whose operators are all COMPLETED after
+the tick, one of them not before, is recorded as finished by the sweep of this very tick (`hasRes` is what the main loop computes: the tick returned a
+result), with latency `t − arrival`, and leaves the outstanding set. -/
+theorem pipeline_is_counted_in_the_tick_its_last_operator_completes (w0 w1 : World) (asgs : List Asg) (sus : List (Nat × Nat)) (hr : WorldReady w0)
+    (hb : Built w0 asgs w1) (hseg : ∀ a ∈ asgs, ∀ r ∈ a.ops, w0.store.segsOf r ≠ []) (hpar : ∀ a ∈ asgs, ParentsOK w1.store a.ops)
+    (hsus : ∀ i, ((sus.filter (·.1 == i)).map (·.2)).Nodup) (hf : w0.FinS) (hc : w0.CidsOK) (hpid : w0.PidOK) (h1 : w0.OnePipe)
+    (ha1 : ∀ a ∈ asgs, InOne w0.pipes a.ops) {w2 : World} {res : List Res} (hx : w1.execTick sus asgs = .ok (w2, res))
+    (t : Nat) (tr : Track) (pid arrival : Nat) (hp : (pid, arrival, (w0.pipes.getD pid default).order) ∈ tr.outstanding)
+    (hall : allCompleted w2.store (w0.pipes.getD pid default).order = true) (hnew : allCompleted w1.store (w0.pipes.getD pid default).order = false) :
+    (pid, t, t - arrival) ∈ (sweep w2.store t (!res.isEmpty) tr).finished ∧
+    (pid, arrival, (w0.pipes.getD pid default).order) ∉ (sweep w2.store t (!res.isEmpty) tr).outstanding := by
+  have hall' : ∀ o ∈ (w0.pipes.getD pid default).order, w2.store.stOf o = completed := by
+    simpa [allCompleted] using hall
+  have hnew' : ∃ o ∈ (w0.pipes.getD pid default).order, w1.store.stOf o ≠ completed := by
+    simpa [allCompleted] using hnew
+  obtain ⟨r, hrr, _, _⟩ := (execTick_completion w0 w1 asgs sus hr hb hseg hpar hsus hf hc hpid h1 ha1 hx).2.2 pid hall' hnew'
+  have hne : (!res.isEmpty) = true := by
+    cases res with
+    | nil => cases hrr
+    | cons x xs => rfl
+  rw [hne]
+  exact (sweep_records_exactly_the_complete_ones w2.store t tr _ hp).1 hall
+
+/-- non-vacuity: a world without containers satisfies `World.OnePipe` -/
+theorem fresh_world_onePipe (cfg : Cfg) (store : Store) (pipes : Array PipeInfo) (caps : List (Nat × Nat)) :
+    World.OnePipe { cfg := cfg, store := store, pools := caps.map (fun c => Pool.fresh c.1 c.2), pipes := pipes } := by
+  refine ⟨fun p hp c hc => ?_, fun p hp c hc => ?_⟩
+  · obtain ⟨x, _, rfl⟩ := List.mem_map.mp hp
+    simp [Pool.fresh] at hc
+  · obtain ⟨x, _, rfl⟩ := List.mem_map.mp hp
+    simp [Pool.fresh] at hc
+
+/-- the hypotheses of the two theorems above hold at every tick of every run of `priority` with multi-operator containers (pre-emption included): they are
+part of the loop invariant that `C08.priority_multi_operator_run_never_raises` re-establishes tick after tick -/
+theorem priority_runs_meet_the_hypotheses (w : World) (st : Prio.St) (cs js : List Ctr) (F : List Nat) (inv : PM.PMInv w st cs js F) :
+    WorldReady w ∧ w.FinS ∧ w.CidsOK ∧ w.PidOK ∧ w.OnePipe := by
+  refine ⟨inv.ready, inv.fins, inv.cids, inv.pid, ⟨fun p hp c hc => ?_, inv.sne⟩⟩
+  rcases List.mem_append.mp hc with h | h
+  · obtain ⟨P, hP, _⟩ := (inv.goodA p hp c h).2
+    exact ⟨P, hP⟩
+  · obtain ⟨P, hP, _⟩ := (inv.goodS p hp c h).2
+    exact ⟨P, hP⟩
+
+/-- … and every container the naive scheduler (either container mode; the `eudoxia init` starter is the single-operator mode) builds holds operators of one
+pipeline, so with `completion_comes_with_a_success_result_in_the_same_tick` handing `World.OnePipe` on from tick to tick the hypothesis holds in all its runs -/
+theorem naive_builds_one_pipeline_containers (multi : Bool) (w w' : World) (st st' : Naive.St) (res : List Res) (newP : List Nat) (dec : Decision)
+    (h : Naive.round multi w st res newP = .ok (w', st', dec)) : ∀ a ∈ dec.asgs, InOne w.pipes a.ops :=
+  Naive.round_inOne multi w w' st st' res newP dec h
+
+/-- likewise overbook: one operator per container, of a registered pipeline, as long as its queue holds registered operators only — which the round hands on -/
+theorem overbook_builds_one_pipeline_containers (w w' : World) (st st' : Overbook.St) (res : List Res) (newP : List Nat) (dec : Decision)
+    (h : Overbook.round w st res newP = .ok (w', st', dec)) (hq : ∀ r ∈ st.opq, Overbook.Reg w.pipes r) :
+    (∀ a ∈ dec.asgs, InOne w.pipes a.ops) ∧ (∀ r ∈ st'.opq, Overbook.Reg w.pipes r) :=
+  Overbook.round_inOne w w' st st' res newP dec h hq
+
+/-- likewise priority-pool: if the waiting jobs and the results it is handed hold operators of one pipeline each, so do its assignments and the jobs it keeps -/
+theorem priority_pool_builds_one_pipeline_containers (w w' : World) (st st' : Prio.St) (results : List Res) (newP : List Nat) (dec : Decision)
+    (h : Prio.ppRound w st results newP = .ok (w', st', dec)) (hj : PP.JobsOne w.pipes st) (hr : ∀ r ∈ results, InOne w.pipes r.ops) :
+    (∀ a ∈ dec.asgs, InOne w.pipes a.ops) ∧ PP.JobsOne w.pipes st' :=
+  PP.ppRound_inOne w w' st st' results newP dec h hj hr
 
 end Eudoxia.C06
